@@ -46,7 +46,10 @@ def unq(t):
 
 
 def parse_sxfm(text):
-    lines = text.split("\n")
+    import xml.etree.ElementTree as ET
+    from xml.sax.saxutils import unescape
+    ET.fromstring(text.encode("utf-8"))          # SXFM is an XML document: it must be well-formed
+    lines = [unescape(ln) for ln in text.split("\n")]
     a, b = lines.index("<feature_tree>"), lines.index("</feature_tree>")
     c, d = lines.index("<constraints>"), lines.index("</constraints>")
     nodes = []          # (depth, kind, payload)
